@@ -2,11 +2,38 @@
 
 case: {"ns","nf","img":[...row-major ints...],"lout":[expected labels],"npk":n,"tiefree":0/1}
 Script mode (ASan):  python c13_replay.py <cases.jsonl> <out.json>
+
+What one case exercises (run_case):
+  dense   cImageD11.localmaxlabel at an EXPLICIT thread count (`threads`, read back through
+          cimaged11_omp_get_max_threads: a request that did not take effect is a machinery error), on an order
+          preserving map of the values, output / work buffers holding previous content
+  sparse  (tie-free images) sparse_localmaxlabel and sparseframe.sparse_localmax on interior threshold masks, both
+          work-buffer fills, and on order preserving value maps of every sign class: positive, mixed sign, all
+          negative, all <= -1e10 and straddling -1e10 (the kernel's MV_LOW start value).  The model (LocalMax.tla) only
+          compares values, so it is covariant under these maps: the expectation is unchanged.
+  clause  "the sparse variant gives the same partition on the same pixels": the REAL dense labels restricted to the
+          listed pixels and the REAL sparse labels must induce the same partition, whenever the listed set is closed
+          under the dense ascent (every listed pixel's 3x3 arg-max in the full image is listed; decided from the
+          image, independently of the code).  Not closed -> the clause does not apply (a listed pixel climbs to an
+          unlisted one in the dense variant) and the comparison is skipped and counted.
 """
 import sys, json
 import numpy as np
 
 POISON = -7
+MV_LOW = -1e10
+# tag of problems that match the structural rule of finding C13-sparse-mvlow-sentinel (see sparse_value_maps)
+MVLOW_TAG = "[values <= -1e10] "
+# explicit thread counts of the small-case replays, by blocks of cases (64 > pixels of any case; large teams are the
+# expensive ones on tiny images, so they get fewer blocks)
+SMALL_THREADS = [1, 3, 2, 7, 16, 64, 1, 5, 2, 3, 16, 7]
+ASAN_THREADS = [2, 1, 3, 2, 7, 1, 2, 3, 64, 1, 2, 5, 1, 2, 3, 1]     # sanitizer build: large teams are slow to start, few blocks
+
+
+def block_threads(idx, table=SMALL_THREADS, block=97):
+    """thread count of case number idx: constant over blocks of cases (changing the team size on every call makes the
+    OpenMP runtime rebuild its pool every time)"""
+    return table[(idx // block) % len(table)]
 
 
 def expected_sparse(img, ns, nf, listed):
@@ -42,7 +69,68 @@ def expected_sparse(img, ns, nf, listed):
     return out, len(maxima)
 
 
-def run_case(case, mods, idx=0, threads=None):
+def closed_under_ascent(img, listed):
+    """every listed pixel's dense uphill pointer (arg-max of its 3x3 block in the FULL image; listed pixels are
+    interior) is listed again.  Decided from the image alone."""
+    ns, nf = img.shape
+    for r, c in zip(*np.nonzero(listed)):
+        if r == 0 or c == 0 or r == ns - 1 or c == nf - 1:
+            return False
+        blk = img[r - 1:r + 2, c - 1:c + 2]
+        k = int(np.argmax(blk))
+        if (blk == blk.ravel()[k]).sum() != 1:
+            return False
+        if not listed[r - 1 + k // 3, c - 1 + k % 3]:
+            return False
+    return True
+
+
+def same_partition(a, b):
+    """two label lists induce the same partition of their (common) index set"""
+    fwd, bwd = {}, {}
+    for x, y in zip(a, b):
+        if fwd.setdefault(x, y) != y or bwd.setdefault(y, x) != x:
+            return False
+    return True
+
+
+def sparse_value_maps(img, idx):
+    """order preserving maps of the (small non-negative integer) image values, one per sign class.  The results stay
+    distinct and ordered in binary32 (rounding is monotone, the spacing of the mapped values exceeds an ulp by far)."""
+    im = np.asarray(img, np.float64)
+    hi = float(im.max())
+    mid = float(np.median(im))
+    return [("mixed", im - mid - 0.5),                 # both signs, no zero
+            ("negative", im - hi - 1.0),               # all < 0
+            ("zero_top", im - hi),                     # all <= 0, the largest value is 0
+            ("below_mvlow", (im - hi - 1.0) * 1.0e10),            # all <= -1e10
+            ("straddle_mvlow", (im - mid - 0.5) * 4.0e9 - 1.0e10)]   # some below, some above -1e10
+
+
+class ThreadsNotSet(Exception):
+    """the requested thread count did not take effect: the sweep would be void (machinery, not a violation)"""
+
+
+def set_threads(cImageD11, nt):
+    """request nt OpenMP threads and READ THE REQUEST BACK (vacuity guard of every thread sweep)"""
+    cImageD11.cimaged11_omp_set_num_threads(int(nt))
+    got = cImageD11.cimaged11_omp_get_max_threads()
+    if got != int(nt):
+        raise ThreadsNotSet("cimaged11_omp_set_num_threads(%d) did not take effect: cimaged11_omp_get_max_threads() = %d"
+                            % (nt, got))
+
+
+def bump(stats, key, sub=None, n=1):
+    if stats is None:
+        return
+    if sub is None:
+        stats[key] = stats.get(key, 0) + n
+    else:
+        d = stats.setdefault(key, {})
+        d[str(sub)] = d.get(str(sub), 0) + n
+
+
+def run_case(case, mods, idx=0, threads=None, stats=None):
     cImageD11, sparseframe = mods
     ns, nf = case["ns"], case["nf"]
     img = np.array(case["img"], dtype=np.float32).reshape(ns, nf)
@@ -52,12 +140,26 @@ def run_case(case, mods, idx=0, threads=None):
     scale = [1.0, 0.5, 3.0, -1.0][idx % 4]
     data = (img * abs(scale) + (7.0 if scale < 0 else 0.0)).astype(np.float32)   # order preserving maps
     lab = np.full((ns, nf), POISON if idx % 2 else 12345, np.int32)
-    wrk = np.full((ns, nf), 77 if idx % 3 else 5, np.uint8)
-    n = cImageD11.localmaxlabel(data, lab, wrk)
+    # previous content of the work buffer: 77 (no direction code), 5 ("maximum"), and every other direction code 1..9
+    wfill = [77, 5, 77, 1, 77, 2, 3, 77, 4, 6, 77, 7, 8, 9, 0][idx % 15]
+    wrk = np.full((ns, nf), wfill, np.uint8)
+    old = None
+    if threads is not None:
+        old = cImageD11.cimaged11_omp_get_max_threads()
+        set_threads(cImageD11, threads)
+    try:
+        n = cImageD11.localmaxlabel(data, lab, wrk)
+    finally:
+        if old is not None:
+            cImageD11.cimaged11_omp_set_num_threads(old)
+    bump(stats, "small_dense_threads", threads)
+    if threads is not None and threads > ns * nf:
+        bump(stats, "small_dense_more_threads_than_pixels")
+    tn = "" if threads is None else " (%d threads)" % threads
     if n != case["npk"]:
-        probs.append("localmaxlabel: returned count %d, specification %d" % (n, case["npk"]))
+        probs.append("localmaxlabel%s: returned count %d, specification %d" % (tn, n, case["npk"]))
     if not np.array_equal(lab, exp):
-        probs.append("localmaxlabel: labels %s differ from specification %s" % (lab.ravel().tolist(), exp.ravel().tolist()))
+        probs.append("localmaxlabel%s: labels %s differ from specification %s" % (tn, lab.ravel().tolist(), exp.ravel().tolist()))
     # sparse variants on interior threshold masks (tie-free only: the result is then unique)
     if case.get("tiefree"):
         vals = sorted(set(case["img"]))
@@ -72,31 +174,59 @@ def run_case(case, mods, idx=0, threads=None):
                 continue
             elab, en = es
             ii, jj = np.nonzero(listed)
+            ii, jj = ii.astype(np.uint16), jj.astype(np.uint16)
             v = data[listed]
+            pos_ok = True
+            sl_pos = None
             # work buffers arrive with any previous content (SparseScan.lmlabel re-uses them from frame to frame)
             for fill in (-123.0, 3.0e38):
                 sl = np.full(len(v), POISON, np.int32)
                 mv = np.full(len(v), fill, np.float32)
                 imv = np.full(len(v), POISON, np.int32)
-                n2 = cImageD11.sparse_localmaxlabel(v, ii.astype(np.uint16), jj.astype(np.uint16), mv, imv, sl)
+                n2 = cImageD11.sparse_localmaxlabel(v, ii, jj, mv, imv, sl)
                 if n2 != en or sl.tolist() != elab:
+                    pos_ok = False
                     probs.append("sparse_localmaxlabel(cut=%s, work buffers pre-filled with %g): %s n=%d, definition %s n=%d" % (
                         cut, fill, sl.tolist(), n2, elab, en))
-            fr = sparseframe.sparse_frame(ii.astype(np.uint16), jj.astype(np.uint16), (ns, nf), pixels={"intensity": v})
+                sl_pos = sl
+            fr = sparseframe.sparse_frame(ii, jj, (ns, nf), pixels={"intensity": v})
             n3 = sparseframe.sparse_localmax(fr)
             if n3 != en or fr.pixels["localmax"].tolist() != elab:
                 probs.append("sparseframe.sparse_localmax(cut=%s) differs from definition" % cut)
-            # same partition as the dense labelling of the whole image on those pixels
-            dl = exp[listed]
-            pairs_d = {}
-            ok = True
-            for a, b in zip(dl.tolist(), elab):
-                if pairs_d.setdefault(a, b) != b:
-                    ok = False
-            if len(set(pairs_d.values())) != len(pairs_d):
-                ok = False
-            # (only meaningful when no listed pixel's dense ascent leaves the listed set)
-            case.setdefault("_sparse_dense_same", []).append(ok)
+            # every sign class of the values (order preserving maps: same expectation)
+            for km, (mname, mvals) in enumerate(sparse_value_maps(case["img"], idx)):
+                vm = np.asarray(mvals, np.float32).reshape(ns, nf)[listed]
+                if len(set(vm.tolist())) != len(set(v.tolist())):
+                    continue                                    # (cannot happen: exact maps)
+                fill = (-123.0, 3.0e38, -3.0e38, 0.0)[(idx + km) % 4]
+                sl = np.full(len(vm), POISON, np.int32)
+                mv = np.full(len(vm), fill, np.float32)
+                imv = np.full(len(vm), POISON, np.int32)
+                n2 = cImageD11.sparse_localmaxlabel(vm, ii, jj, mv, imv, sl)
+                bump(stats, "sparse_sign_classes", mname)
+                if (vm <= MV_LOW).any():
+                    bump(stats, "sparse_cases_with_values_le_mvlow")
+                if n2 != en or sl.tolist() != elab:
+                    # structural rule of the finding: values <= -1e10 among the listed pixels AND the same pattern
+                    # with the same order of values above -1e10 is labelled as the definition says
+                    tag = MVLOW_TAG if ((vm <= MV_LOW).any() and pos_ok) else ""
+                    probs.append("%ssparse_localmaxlabel(cut=%s, values mapped order-preservingly to class '%s' %s, work buffers "
+                                 "pre-filled with %g): %s n=%d, definition %s n=%d" % (
+                                     tag, cut, mname, vm.tolist(), fill, sl.tolist(), n2, elab, en))
+            # clause: same partition as the dense labelling of the whole image on those pixels (real code both sides)
+            if closed_under_ascent(img, listed):
+                bump(stats, "partition_clause_judged")
+                dl = lab[listed].tolist()
+                if len(set(dl)) > 1:
+                    bump(stats, "partition_clause_judged_two_or_more_basins")
+                if not same_partition(dl, sl_pos.tolist()):
+                    probs.append("sparse and dense variants give different partitions of the listed pixels (cut=%s, listed set "
+                                 "closed under the ascent): dense labels there %s, sparse labels %s" % (cut, dl, sl_pos.tolist()))
+                if 0 in dl:
+                    probs.append("dense variant gives background to an interior pixel whose ascent stays in the interior "
+                                 "(cut=%s): dense labels on the listed pixels %s" % (cut, dl))
+            else:
+                bump(stats, "partition_clause_not_applicable_ascent_leaves_listed_set")
     return probs
 
 
@@ -108,7 +238,7 @@ def load_mods():
 def main():
     cases_path, out_path = sys.argv[1], sys.argv[2]
     mods = load_mods()
-    out = {"n": 0, "problems": []}
+    out = {"n": 0, "problems": [], "stats": {}}
     with open(cases_path) as f:
         for idx, line in enumerate(f):
             case = json.loads(line)
@@ -116,7 +246,10 @@ def main():
             with open(out_path + ".cur", "w") as g:
                 g.write(str(idx))
             try:
-                p = run_case(case, mods, idx)
+                p = run_case(case, mods, idx, threads=block_threads(idx, ASAN_THREADS, 64), stats=out["stats"])
+            except ThreadsNotSet as e:
+                out["machinery"] = str(e)
+                break
             except Exception as e:          # noqa
                 p = ["exception %r" % (e,)]
             if p:
